@@ -1026,6 +1026,69 @@ static int _yr_scan_verify_literal_match(
   FAIL_ON_ERROR(
       _yr_scan_match_callback(data + offset, 0, flags, &callback_args));
 
+  // The comparisons above stop at the first form of an "ascii wide" string
+  // that is found, but both forms can occur at the very same offset (for
+  // example "a\x00\x00\x00"). With "fullword" the occurrence found first may
+  // be discarded while the other one, which is delimited differently, is
+  // valid, so the other form must be verified too. If both are accepted the
+  // second one is dropped by _yr_scan_add_match_to_list because of its
+  // identical offset.
+  if (STRING_IS_FULL_WORD(string) && STRING_IS_WIDE(string) &&
+      STRING_IS_ASCII(string) && !STRING_FITS_IN_ATOM(string))
+  {
+    if (flags & RE_FLAGS_WIDE)
+    {
+      // Only the xor comparisons try the wide form before the ASCII one.
+      forward_matches = 0;
+
+      if (STRING_IS_XOR(string))
+      {
+        forward_matches = _yr_scan_xor_compare(
+            data + offset,
+            data_size - offset,
+            string->string,
+            string->length,
+            &xor_key);
+      }
+
+      flags &= ~RE_FLAGS_WIDE;
+    }
+    else
+    {
+      if (STRING_IS_NO_CASE(string))
+      {
+        forward_matches = _yr_scan_wicompare(
+            data + offset, data_size - offset, string->string, string->length);
+      }
+      else
+      {
+        forward_matches = _yr_scan_wcompare(
+            data + offset, data_size - offset, string->string, string->length);
+
+        if (STRING_IS_XOR(string) && forward_matches == 0)
+        {
+          forward_matches = _yr_scan_xor_wcompare(
+              data + offset,
+              data_size - offset,
+              string->string,
+              string->length,
+              &xor_key);
+        }
+      }
+
+      flags |= RE_FLAGS_WIDE;
+    }
+
+    if (forward_matches > 0)
+    {
+      callback_args.forward_matches = forward_matches;
+      callback_args.xor_key = xor_key;
+
+      FAIL_ON_ERROR(
+          _yr_scan_match_callback(data + offset, 0, flags, &callback_args));
+    }
+  }
+
   return ERROR_SUCCESS;
 }
 
